@@ -5,6 +5,82 @@
 
 using namespace vf;
 
+// The builders outside main(): the same fixed sequence of setData / setter calls is run during static initialisation, inside
+// main() and after main() has returned; the raw bytes and the DLC codes must be the same each time.
+static std::vector<std::string> buildFixedSet()
+{
+    using namespace ASAM::CMP;
+    std::vector<std::string> out;
+    std::vector<uint8_t> data(300);
+    for (size_t i = 0; i < data.size(); ++i)
+        data[i] = static_cast<uint8_t>(i * 7 + 1);
+    auto rec = [&](const char* what, const Payload& p) { out.push_back(std::string(what) + " raw=" + hex(p.getRawPayload(), p.getLength(), 120)); };
+    for (unsigned n = 0; n <= 64; ++n)
+    {
+        CanPayload c;
+        c.setId(0x123);
+        c.setData(data.data(), static_cast<uint8_t>(n));
+        out.push_back("CanPayload len=" + std::to_string(n) + " dlc=" + std::to_string(c.getDlc()) + " raw=" + hex(c.getRawPayload(), c.getLength(), 40));
+        CanFdPayload f;
+        f.setData(data.data(), static_cast<uint8_t>(n));
+        out.push_back("CanFdPayload len=" + std::to_string(n) + " dlc=" + std::to_string(f.getDlc()) + " raw=" + hex(f.getRawPayload(), f.getLength(), 40));
+    }
+    LinPayload l;
+    l.setLinId(5);
+    l.setData(data.data(), 8);
+    rec("LinPayload", l);
+    EthernetPayload e;
+    e.setData(data.data(), 100);
+    rec("EthernetPayload", e);
+    AnalogPayload a;
+    a.setSampleInterval(0.5f);
+    a.setData(data.data(), 64);
+    rec("AnalogPayload", a);
+    CaptureModulePayload cm;
+    cm.setData("description", "serial", "hw1", "sw22", {1, 2, 3});
+    rec("CaptureModulePayload", cm);
+    InterfacePayload ifp;
+    ifp.setInterfaceId(77);
+    ifp.setData(data.data(), 3, data.data() + 10, 5);
+    rec("InterfacePayload", ifp);
+    Packet p;
+    p.setPayload(e);
+    p.setTimestamp(0x1122334455667788ULL);
+    uint8_t hdr[24] = {0};
+    p.getRawCmpHeader(hdr);
+    p.getRawMessageHeader(hdr + 8);
+    out.push_back("Packet raw headers=" + hex(hdr, sizeof hdr, 24));
+    return out;
+}
+static std::string buildDifference(const std::vector<std::string>& a, const std::vector<std::string>& b)
+{
+    for (size_t i = 0; i < a.size() && i < b.size(); ++i)
+        if (a[i] != b[i])
+            return "then: " + a[i] + " now: " + b[i];
+    return a.size() == b.size() ? "" : "different number of results";
+}
+static void buildAfterMain();
+// (never destroyed: the atexit handler still reads it)
+static const std::vector<std::string>& gBuiltBeforeMain = *new std::vector<std::string>((lateReport(), atexit(buildAfterMain), buildFixedSet()));
+static void buildAfterMain()
+{
+    const std::string& prop = lateReport().prop;
+    if ((prop != "C11" && prop != "C13") || lateReport().shard != 0)
+        return;
+    std::string d = buildDifference(gBuiltBeforeMain, buildFixedSet());
+    if (!d.empty())
+        lateViolation(prop + ":builder-result-after-main-returned-differs", d);
+}
+static void buildOutsideMainCase(Ctx& c)
+{
+    auto now = buildFixedSet();
+    std::string d = buildDifference(gBuiltBeforeMain, now);
+    ++c.evaluations;
+    c.count("builder_calls_also_made_before_and_after_main", now.size());
+    if (!d.empty())
+        c.violation(c.prop + ":builder-result-before-main-differs", "built during static initialisation / inside main(): " + d, "fixed builder sequence");
+}
+
 static long countCases(Ctx& c)
 {
     if (c.prop == "C12") return fld::count(c) + c13::detCount() + (c.thorough() ? 400000 : 60000);
@@ -15,6 +91,8 @@ static long countCases(Ctx& c)
 }
 static void runCase(Ctx& c, long idx)
 {
+    if (idx == 0 && (c.prop == "C11" || c.prop == "C13"))
+        buildOutsideMainCase(c);
     if ((c.prop == "C12" || c.prop == "C11") && idx >= fld::count(c))
     {
         // layout of the variable-length parts written by setData (same executions as C13, judged against the wire model)
